@@ -9,7 +9,10 @@ os.makedirs(dst, exist_ok=True)
 for f in os.listdir(src):
     if f in ("prompt.txt", "property.txt") or f.endswith(".log"):
         continue
-    shutil.copy(os.path.join(src, f), os.path.join(dst, f))
+    if os.path.isdir(os.path.join(src, f)):
+        shutil.copytree(os.path.join(src, f), os.path.join(dst, f), dirs_exist_ok=True)
+    else:
+        shutil.copy(os.path.join(src, f), os.path.join(dst, f))
 meta = {}
 if os.path.exists(os.path.join(src, "meta.json")):
     try:
